@@ -19,8 +19,9 @@ CONSTANTS
   Weak_ReplacementHashUnchecked = FALSE
   Weak_PromotedWitnessStays = TRUE
   Weak_PartialTraceOnBenignError = FALSE
+  Weak_DivergentHeaderExaminedOncePerRun = FALSE
 INIT Init
 NEXT Next
-INVARIANTS TrustRootOnly StoreSound WitnessConfirmed IndependentWitness NoConfirmationFromSilence AttackReported AttackStoresNothing StoreMonotone
+INVARIANTS TrustRootOnly StoreSound WitnessConfirmed IndependentWitness NoConfirmationFromSilence AttackReported OrderIndependent AttackerNeverOutvoted AttackStoresNothing StoreMonotone
 VIEW CView
 CHECK_DEADLOCK FALSE
